@@ -156,7 +156,7 @@ func GenProgram(t *rapid.T, c GenCfg) Program {
 	for i := 0; i < n; i++ {
 		op := Op{Kind: rapid.SampledFrom(kinds).Draw(t, "kind")}
 		switch op.Kind {
-		case "fill", "l0l0", "churn", "deepen", "l0shape", "l0big":
+		case "fill", "l0l0", "churn", "deepen", "l0shape", "l0big", "gcrace":
 			open[3] = 0
 		case "reopen":
 			open = [4]int{}
@@ -232,6 +232,47 @@ func GenProgram(t *rapid.T, c GenCfg) Program {
 				}
 			}
 			p.Ops = append(p.Ops, Op{Kind: "flush"}, Op{Kind: "compact", A: 0, B: 1}, Op{Kind: "gc", F: 0.001})
+			continue
+		case "gcrace": // macro: churn, then a GC whose rewrite is paused while other ops run (delete + compaction, new iterators)
+			start := rapid.IntRange(0, nk-1).Draw(t, "start")
+			if rapid.Bool().Draw(t, "reserved") {
+				start = reservedKeyBase // a key range that nothing else in the tree overlaps
+			}
+			cnt := rapid.IntRange(3, 8).Draw(t, "cnt")
+			vs := int(p.Spec.ValueThreshold) + rapid.IntRange(0, 200).Draw(t, "extra")
+			for round := 0; round < 2; round++ {
+				for j := 0; j < cnt; j++ {
+					if round == 1 && j%2 == 1 {
+						continue // half of the keys keep their first version: those are what GC moves
+					}
+					p.Ops = append(p.Ops, Op{Kind: "begin", T: 3, RW: true, Ts: uint64(rapid.IntRange(1, 60).Draw(t, "rts"))},
+						Op{Kind: "set", T: 3, Key: start + j, VSize: vs}, Op{Kind: "commit", T: 3, Ts: uint64(rapid.IntRange(1, 60).Draw(t, "cts"))})
+				}
+			}
+			p.Ops = append(p.Ops, Op{Kind: "flush"}, Op{Kind: "compact", A: 0, B: 1})
+			var inside []Op
+			switch rapid.IntRange(0, 2).Draw(t, "racekind") {
+			case 0: // delete moved keys, flush, push the tombstones down
+				inside = append(inside, Op{Kind: "begin", T: 3, RW: true, Ts: uint64(rapid.IntRange(1, 60).Draw(t, "rts"))})
+				for j := 1; j < cnt; j += 2 {
+					inside = append(inside, Op{Kind: "del", T: 3, Key: start + j})
+				}
+				inside = append(inside, Op{Kind: "commit", T: 3, Ts: uint64(rapid.IntRange(1, 60).Draw(t, "cts"))}, Op{Kind: "flush"},
+					Op{Kind: "compact", A: 0, B: 1}, Op{Kind: "compact", A: rapid.IntRange(1, 6).Draw(t, "lvl"), B: 1, T: 2})
+			case 1: // a reader arrives during the rewrite and keeps its iterator / items
+				slot := rapid.IntRange(0, 2).Draw(t, "slot")
+				open[slot] = 1
+				inside = append(inside, Op{Kind: "begin", T: slot, Ts: uint64(rapid.IntRange(1, 60).Draw(t, "rts"))},
+					Op{Kind: "iter", T: slot, It: &IterSpec{Prefix: -1, Seek: -1, Hold: 1 + rapid.IntRange(0, 2).Draw(t, "hold"), NoPrefetch: rapid.Bool().Draw(t, "nopf"), All: rapid.Bool().Draw(t, "all")}},
+					Op{Kind: "gethold", T: slot, Key: start + 1})
+			default: // overwrite moved keys and flush
+				inside = append(inside, Op{Kind: "begin", T: 3, RW: true, Ts: uint64(rapid.IntRange(1, 60).Draw(t, "rts"))},
+					Op{Kind: "set", T: 3, Key: start + 1, VSize: 3}, Op{Kind: "commit", T: 3, Ts: uint64(rapid.IntRange(1, 60).Draw(t, "cts"))}, Op{Kind: "flush"})
+			}
+			p.Ops = append(p.Ops, Op{Kind: "gc", F: 0.001, A: len(inside)})
+			p.Ops = append(p.Ops, inside...)
+			p.Ops = append(p.Ops, Op{Kind: "iterdrain", T: 0}, Op{Kind: "iterdrain", T: 1}, Op{Kind: "iterdrain", T: 2}, Op{Kind: "itemread", T: 0}, Op{Kind: "itemread", T: 1}, Op{Kind: "itemread", T: 2},
+				Op{Kind: "compact", A: 0, B: 1}, Op{Kind: "check"})
 			continue
 		case "deepen": // macro: bigger data pushed down so that several levels fill up
 			for j := 0; j < rapid.IntRange(1, 3).Draw(t, "rounds"); j++ {
